@@ -282,6 +282,9 @@ def build(tier, seed):
     L = 6 if tier == 'quick' else 8
     L_rel = L - 1
     cases = [{'w': list(w), 'rel': len(w) <= L_rel} for w in words(SIGMA, 1, L, nonzero=True)]
+    # the durations of an object after EVERY public edit of its record (C04 alphabet, incl. the edits that rewrite the stored array in
+    # place): those of the record it holds then
+    cases += [{'kind': 'edited', 'w': list(w)} for w in words(SIGMA, 3, 3, nonzero=True) if len(set(w)) > 1]
     return {
         'cases': cases,
         'rule': 'all non-zero words over {-2..2} of length 1..%d (one pool case per word) x dt in %s x all %d ordered '
@@ -317,7 +320,7 @@ def build(tier, seed):
                    'object_statistics_levels_in_g': [[a, float(q)] for a, q in STATS_LEVELS],
                    'history': 'other record 3*reversed(w)+1 (+ one sample 2), stat generators %s, lazy properties %s'
                               % (list(STAT_GENERATORS), list(LAZY))},
-        'required_classes': ['decided', 'exact-tie', 'rounding-tie', 'exact-tie-lower', 'exact-tie-upper',
+        'required_classes': ['durations-after-public-edit', 'decided', 'exact-tie', 'rounding-tie', 'exact-tie-lower', 'exact-tie-upper',
                              'precondition-false', 'precondition-false-raises', 'se-true', 'se-false',
                              'start-eq-end', 'start-lt-end', 'user-measure-differs-from-arias', 'user-measures-alternating-on-one-object',
                              'scaling', 'zero-prefix-shift', 'zero-prefix-definition', 'nesting',
@@ -552,7 +555,96 @@ def guarded(r, claim, subf, mode, cnt, fn, *args):
         return False, None
 
 
+def run_edited(case):
+    """durations queried, the record edited through one public method, durations queried again: the answers are those of the record
+    the object holds now.  Oracle: the exact crossing definition evaluated on the values read back from the object (brute force in
+    float64 on the library-independent running sums; ties are avoided by the irregular record)."""
+    from . import c04
+    r = Res()
+    w = [float(v) for v in case['w']]
+    r.nontrivial += 1
+    base = np.array([w[i % 3] * (1.0 + 0.37 * ((i * 7) % 5)) + 0.011 * i for i in range(30)])
+    ops, kind = c04.build_ops('AccSignal')
+    dt = 0.01
+    thr = 0.35 * float(np.max(np.abs(base)))
+
+    def queries(sg):
+        return (im.calc_brac_dur(sg, thr, se=True), im.calc_brac_dur(sg, 0.0), im.calc_sig_dur(sg, se=True),
+                im.calc_sig_dur(sg, start=0.25, end=0.75, im=im.calc_cav, se=True))
+    for name, op in ops.items():
+        if kind[name][0] != 'mut':
+            continue
+        sub = {'w': case['w'], 'history': ['durations', name, 'durations']}
+        r.states += 1
+        try:
+            sg = eqsig.AccSignal(base.copy(), dt)
+            sg._mc_n0 = len(base)
+            queries(sg)
+        except Exception as e:
+            r.fail('edited.call', sub, 'raises %s: %s' % (type(e).__name__, str(e)[:150]))
+            continue
+        try:
+            op(sg)
+        except Exception:
+            r.disabled['edited: the edit raises (%s)' % name] += 1
+        try:
+            now = np.array(sg.values, dtype=float)
+            got = queries(sg)
+        except Exception as e:
+            r.fail('edited.call', sub, 'durations after the edit raise %s: %s' % (type(e).__name__, str(e)[:150]))
+            continue
+        # reference on the values the object holds now
+        n = len(now)
+        t = np.arange(n) * dt
+        above = np.nonzero(np.abs(now) > thr)[0]
+        want_brac = (t[above[0]], t[above[-1]]) if len(above) else (None, None)
+        nz = np.nonzero(np.abs(now) > 0.0)[0]
+        want_b0 = (t[nz[-1]] - t[nz[0]]) if len(nz) else 0
+        sq = now ** 2
+        arias = np.concatenate([[0.0], np.cumsum((sq[1:] + sq[:-1]) / 2.0)])
+        cav = np.concatenate([[0.0], np.cumsum((np.abs(now[1:]) + np.abs(now[:-1])) / 2.0)])
+
+        def crossing(cum, lo, hi):
+            tot = cum[-1]
+            inside = [i for i in range(n) if lo * tot * (1 + 1e-9) < cum[i] < hi * tot * (1 - 1e-9)]
+            amb = [i for i in range(n) if (abs(cum[i] - lo * tot) <= 1e-9 * tot) or (abs(cum[i] - hi * tot) <= 1e-9 * tot)]
+            return inside, amb
+        r.transitions += 1
+        r.cls('durations-after-public-edit')
+        r.n_cmp += 4
+        try:
+            ok_b = (got[0] == want_brac) or (want_brac[0] is not None and got[0][0] is not None
+                                            and abs(got[0][0] - want_brac[0]) <= 1e-9 and abs(got[0][1] - want_brac[1]) <= 1e-9)
+        except Exception:
+            ok_b = False
+        if not ok_b:
+            r.fail('edited.bracketed', sub, 'bracketed duration after the edit is not that of the record the object holds now',
+                   observed=got[0], expected=want_brac)
+        try:
+            ok_0 = abs(float(got[1]) - float(want_b0)) <= 1e-9
+        except Exception:
+            ok_0 = got[1] == want_b0
+        if not ok_0:
+            r.fail('edited.bracketed', dict(sub, threshold=0), 'bracketed duration (threshold 0) after the edit is not that of the record the object holds now',
+                   observed=got[1], expected=want_b0)
+        for gi, cum, lo, hi, mname in ((2, arias, 0.05, 0.95, 'arias'), (3, cav, 0.25, 0.75, 'cav')):
+            inside, amb = crossing(cum, lo, hi)
+            if amb or not inside:
+                r.disabled['edited: crossing at a rounding-level tie / nothing inside'] += 1
+                continue
+            try:
+                ok_s = abs(got[gi][0] - t[inside[0]]) <= 1e-9 and abs(got[gi][1] - t[inside[-1]]) <= 1e-9
+            except Exception:
+                ok_s = False
+            if not ok_s:
+                r.fail('edited.significant', dict(sub, measure=mname), 'significant duration after the edit is not that of the record the object holds now',
+                       observed=got[gi], expected=(t[inside[0]], t[inside[-1]]))
+    return r
+
+
 def run_case(case):
+    if case.get('kind') == 'edited':
+        return run_edited(case)
     r = Res()
     w = list(case['w'])
     with_rel = bool(case.get('rel', True))
